@@ -23,6 +23,13 @@ Theorem C14_batch_always_replies : forall pre txs swaps keys post, fst (run (sha
 Proof. exact batch_always_replies. Qed.
 Theorem C14_tasks_always_reply : forall pre predict tasks post, fst (run (shape_tasks pre predict tasks post)) = Done.
 Proof. exact tasks_always_reply. Qed.
+(* Init has no recover: it replies exactly when none of its steps panics.  That no input makes a step
+   of Init panic is not a theorem of this model; the child-process vectors (configurations whose
+   fields pass the decoders but are odd) are what checks it. *)
+Theorem C14_init_replies_iff_no_panic : forall creator validate save,
+  fst (run (shape_init creator validate save)) = Done <-> creator = false /\ validate = false /\ save = false.
+Proof. exact init_replies_iff_no_panic. Qed.
+Print Assumptions C14_init_replies_iff_no_panic.
 Print Assumptions C14_plain_always_replies.
 Print Assumptions C14_batch_always_replies.
 Print Assumptions C14_tasks_always_reply.
